@@ -106,7 +106,7 @@ Section Par2Facts.
     - apply pres_refl.
     - pose proof (io_read_pres p st) as P.
       destruct (io_read p st) as [[b|e|q] st1]; cbn [snd] in P.
-      + destruct (read_file md5 (Some (d_setid d)) b) as [| |sid f].
+      + destruct (read_file_vol md5 (d_setid d) b) as [| |sid f].
         * cbn [snd]. exact P.
         * eapply pres_trans; [exact P|apply IH].
         * lazymatch goal with |- pres _ (snd (if ?c then _ else _)) => destruct c end; [cbn [snd]; exact P|].
